@@ -28,7 +28,7 @@ import (
 )
 
 // upstream state kinds
-var kinds = []string{"ok0", "ok1", "ok2", "unhealthy", "failed", "full", "2p-ok", "2p-one-down"}
+var kinds = []string{"ok0", "ok1", "ok2", "unhealthy", "failed", "full", "2p-ok", "2p-one-down", "2p-busy", "2p-one-full"}
 
 func mkUpstream(i int, kind string) *l4proxy.Upstream {
 	dial := []string{fmt.Sprintf("10.0.0.%d:80", i+1)}
@@ -54,6 +54,14 @@ func mkUpstream(i int, kind string) *l4proxy.Upstream {
 	case "2p-one-down":
 		dial = append(dial, fmt.Sprintf("10.0.1.%d:80", i+1))
 		return l4proxy.VerifNewUpstream(dial, 0, 1, []l4proxy.VerifPeerState{P(0, false, 0), P(0, true, 0)})
+	case "2p-busy":
+		// the limit is per peer (every proxied connection goes to every peer): each peer is
+		// below it although the counts add up to it
+		dial = append(dial, fmt.Sprintf("10.0.1.%d:80", i+1))
+		return l4proxy.VerifNewUpstream(dial, 2, 1, []l4proxy.VerifPeerState{P(1, false, 0), P(1, false, 0)})
+	case "2p-one-full":
+		dial = append(dial, fmt.Sprintf("10.0.1.%d:80", i+1))
+		return l4proxy.VerifNewUpstream(dial, 2, 1, []l4proxy.VerifPeerState{P(2, false, 0), P(0, false, 0)})
 	}
 	panic(kind)
 }
@@ -61,7 +69,7 @@ func mkUpstream(i int, kind string) *l4proxy.Upstream {
 // refAvailable / refConns: the reference model of a state kind (independent of the code).
 func refAvailable(kind string) bool {
 	switch kind {
-	case "ok0", "ok1", "ok2", "2p-ok":
+	case "ok0", "ok1", "ok2", "2p-ok", "2p-busy":
 		return true
 	}
 	return false
@@ -70,7 +78,7 @@ func refConns(kind string) int {
 	switch kind {
 	case "ok1", "2p-ok", "full":
 		return 1
-	case "ok2":
+	case "ok2", "2p-busy", "2p-one-full":
 		return 2
 	}
 	return 0
@@ -403,7 +411,7 @@ func main() {
 	runner.Main(&runner.Harness{
 		ID:    "C10",
 		Level: "model_checking",
-		Rule:  "every pool of size 0..3 over 8 upstream state kinds (idle/1/2 connections, unhealthy, failed>=max_fails, full, two-peer healthy, two-peer with one peer down), size 4 over 6 (8 thorough) kinds, size 5 over 4 kinds (thorough), sizes 5..8 over all available/unavailable vectors; x every policy (first; round_robin from start counters incl. the 2^32 wrap-around, 2n+1 calls; ip_hash for 6 client addresses incl. IPv6, zone, unix, UDP; random, least_conn, random_choose with choose in {default,2,3,n,n+1}) x EVERY sequence of random draws (math/rand redirected to the explorer); reference model = filter of the pool by the kind's availability; non-trivial = pools with both available and unavailable upstreams",
+		Rule:  "every pool of size 0..3 over 10 upstream state kinds (idle/1/2 connections, unhealthy, failed>=max_fails, full, two-peer healthy, two-peer with one peer down, two-peer with each peer below the limit but the sum at it, two-peer with one peer at the limit), size 4 over 6 (10 thorough) kinds, size 5 over 4 kinds (thorough), sizes 5..8 over all available/unavailable vectors; x every policy (first; round_robin from start counters incl. the 2^32 wrap-around, 2n+1 calls; ip_hash for 6 client addresses incl. IPv6, zone, unix, UDP; random, least_conn, random_choose with choose in {default,2,3,n,n+1}) x EVERY sequence of random draws (math/rand redirected to the explorer); reference model = filter of the pool by the kind's availability; non-trivial = pools with both available and unavailable upstreams",
 		Assumptions: []string{
 			"weakrand.Int() is only used modulo small counts: its domain is modelled as 0..11 (all residues mod 1,2,3,4,6,12)",
 			"the 2^-32 case where every HRW hash is 0 is outside the enumerated addresses",
